@@ -48,6 +48,8 @@ def interp_factory():
     it.frames = []
     it.transparent_only = None
     it.assign_hooks = {}
+    from pyvc import ctx as _ctx
+    _ctx.INTERP = it
     return it
 
 
